@@ -91,6 +91,7 @@ pub open spec fn cmd_of(frame: RespFrame) -> Option<Seq<char>> {
         _ => None,
     }
 }
+pub open spec fn is_err_reply(r: Result<RespFrame>) -> bool { r matches Ok(f) && f is Error }
 pub open spec fn parts_of(frame: RespFrame) -> Seq<RespFrame> {
     match frame { RespFrame::Array(Some(parts)) => parts@, _ => Seq::empty() }
 }
@@ -158,6 +159,7 @@ impl Server {
 
 //@@ unit process_frame fn src/network/server.rs Server::process_frame
 //@@   rewrite R3
+//@@   rewrite RGUARD
 //@@   rewrite RPCALL "String::from_utf8_lossy" verif_from_utf8_lossy
 //@@   rewrite RXPR "cmd_raw.trim().to_uppercase()" "verif_trim_upper(&cmd_raw)"
 //@@   rewrite R7 "conn_status != ConnectionState::Authenticated" verif_state_ne
@@ -183,6 +185,17 @@ impl Server {
                     && queued_push(old(self).connections.map@[conn_id].transaction_state.queued_commands@, final(self).connections.map@[conn_id].transaction_state.queued_commands@, parts_of(frame))
                     && final(self).connections.map@[conn_id].transaction_state.in_transaction
                     && final(self).connections.map@[conn_id].db_index == old(self).connections.map@[conn_id].db_index))),
+            // C18 / C07: any other command of a connection that passed the gate is dispatched exactly once, with the database
+            // selected on THAT connection, and with that connection's id — or refused (CLIENT PAUSE) without running anything
+            (!gate_closed(*old(self), conn_id) && old(self).connections.map@.contains_key(conn_id)) ==> (cmd_of(frame) matches Some(c) ==> (
+                (!handled_before_queue(c) && !(old(self).connections.map@[conn_id].transaction_state.in_transaction && spec_should_queue(c))) ==> (
+                    (final(self).effects@ == old(self).effects@.push(Eff::Normal(parts_of(frame), old(self).connections.map@[conn_id].db_index, conn_id))
+                        || (final(self).effects@ == old(self).effects@ && is_err_reply(r)))))),
+            // a frame that is not a command (not a non-empty array whose first element is a bulk string) is answered with an
+            // error and nothing runs
+            cmd_of(frame) is None ==> is_err_reply(r) && final(self).effects@ == old(self).effects@ && final(self).connections.map@ == old(self).connections.map@,
+            // an unknown connection id is answered with an error and nothing runs
+            (cmd_of(frame) is Some && !old(self).connections.map@.contains_key(conn_id)) ==> is_err_reply(r) && final(self).effects@ == old(self).effects@ && final(self).connections.map@ == old(self).connections.map@,
 //@@ body
 //@@ end
 }
